@@ -5,4 +5,4 @@ THEOREMS = ['failed_store_noop', 'failed_store_observables', 'failed_store_keeps
 
 
 def run():
-    run_store('C12', THEOREMS, """Focus: stores that fail: duplicates, deleted, replaced (after the pre-removal scan), deletion requests refused at their k-th tag after k-1 effective ones, requests naming an address with a 480-byte identifier (LMDB key-size error after earlier tags took effect); oracle (model-free): the whole battery before the failing call equals the battery after it (every lookup, marker, address query, extra table and all index entry counts).""", {'reply', 'noop'})
+    run_store('C12', THEOREMS, """Focus: stores that fail: duplicates, deleted, replaced (after the pre-removal scan), deletion requests refused at their k-th tag after k-1 effective ones, requests naming an address with a 480-byte identifier (LMDB key-size error after earlier tags took effect); oracle (model-free): the whole battery before the failing call equals the battery after it (every lookup, marker, address query, extra table and all index entry counts).""", {'reply', 'noop'}, relevant={'STO'})
